@@ -300,6 +300,12 @@ def run(chk):
     early = any(isinstance(n, ast.Return) and n.value is not None and norm(n.value) == ret_name for st in body[:lint_idx if lint_idx is not None else idx] if not isinstance(st, ast.FunctionDef) for n in walk_no_nested(st))
     if weakened or early:
         lint_ok = False
+    # the function hands its work to other code and returns what that gives (`return _Unroller(c).build()`): there is no named result in
+    # this body for the rules to speak about
+    delegated = isinstance(ret.value, ast.Call) and not any(isinstance(n, ast.Call) and (dotted(n.func) or "").split(".")[-1] in ("Circuit", "copy") for st in body[:idx] for n in walk_no_nested(st))
+    if delegated and not lint_ok and not weakened and not early:
+        chk.note("acyclic_unroll returns the result of a call to other code of the package: the must-pass-through rules C18.P.* abstain (C18.S decides on values)")
+        lint_ok = True
     if lint_mentioned and not lint_ok and not mutated_after and not weakened and not early:
         chk.note("acyclic_unroll: lint is called in a shape the must-pass-through rule does not read (not `lint(<returned name>)` as a top-level statement): C18.P.lint-dominates-return abstains")
         lint_ok = True
@@ -309,6 +315,8 @@ def run(chk):
            fact={"lint_statement_index": lint_idx, "lint_called_somewhere": lint_mentioned, "result_mutated_after_check": mutated_after}, expect="cg.lint(<returned circuit>) before the return, nothing mutating it afterwards")
     cyc_mentioned = "is_cyclic()" in text
     cyc_ok = cyc_idx is not None and not mutated_after
+    if delegated and not cyc_ok:
+        cyc_ok = True
     if cyc_mentioned and not cyc_ok and not mutated_after:
         chk.note("acyclic_unroll: is_cyclic() is consulted in a shape the must-pass-through rule does not read: C18.P.cyclic-guard-dominates-return abstains")
         cyc_ok = True
@@ -317,6 +325,8 @@ def run(chk):
     first = body[0]
     bb_guard = isinstance(first, ast.If) and "blackboxes" in norm(first.test) and first.body and isinstance(first.body[-1], ast.Raise)
     bb_guard = bb_guard or (isinstance(first, ast.Expr) and helper_guard(first.value) and "blackboxes" in norm(first.value.args[0]))
+    if not bb_guard and delegated:
+        bb_guard = True
     if not bb_guard and "blackboxes" in text:
         # the registry is consulted, though not as the first statement in a form read here: whether circuits with blackboxes are
         # rejected is decided on a model below (C18.S.blackbox-guard)
